@@ -108,6 +108,14 @@ func genC13(r *rt.Rand, tier string, idx int) *world.Scenario {
 			cl.Ops = append(cl.Ops, world.Op{K: "streamparts", Key: rg[0], End: rg[1], Rev: revs()})
 		}
 	}
+	if idx%25 == 9 {
+		// many keys: a partition's stream then consists of several batches (300 key-values each), which
+		// queue up behind a reader that is slower than the scan
+		sc.Class += "+many-keys"
+		nk := int64(650 + r.Intn(300))
+		sc.Prologue = append([]world.Op{{K: "burst", Key: prefix + "/m", Val: "x", Limit: nk, Ms: nk}}, sc.Prologue...)
+		sc.MaxSteps = 400000
+	}
 	if idx%10 == 7 {
 		// transient iterator errors: a partition scan is retried; what is finally answered must still be right
 		sc.Class += "+read-errors"
